@@ -15,6 +15,7 @@ BKinds == {"absent", "true", "false", "yes", "off", "five", "word", "list"}
 LKinds == {"absent", "empty", "nums", "mixed", "scalar"}
 OKinds == {"absent", "min", "full", "noreq", "extra", "scalar", "badm"}
 XKinds == {"absent", "present"}      \* an undeclared top-level key
+MKinds == {"absent", "ints", "badkey"} \* a map with integer keys: integers as keys, or a key that is no integer
 PKinds == {"absent", "re", "badre"}  \* a pattern-typed field: a regular expression, or text that is none
 WKinds == {"map", "list", "scalar"}   \* what the whole document is
 Schemas == {"full", "empty"}          \* "empty": an input object that declares no properties - only the empty map is valid
@@ -26,10 +27,11 @@ LValid(k) == k \in {"absent", "empty", "nums"}
 OValid(k) == k \in {"absent", "min", "full"}
 XValid(k) == k = "absent"
 PValid(k) == k \in {"absent", "re"}
-AllAbsent(d) == d.s = "absent" /\ d.i = "absent" /\ d.b = "absent" /\ d.l = "absent" /\ d.o = "absent" /\ d.x = "absent" /\ d.p = "absent"
+MValid(k) == k \in {"absent", "ints"}
+AllAbsent(d) == d.s = "absent" /\ d.i = "absent" /\ d.b = "absent" /\ d.l = "absent" /\ d.o = "absent" /\ d.x = "absent" /\ d.p = "absent" /\ d.m = "absent"
 Valid(d) == /\ d.w = "map"
             /\ IF d.schema = "empty" THEN AllAbsent(d)
-               ELSE SValid(d.s) /\ IValid(d.i) /\ BValid(d.b) /\ LValid(d.l) /\ OValid(d.o) /\ XValid(d.x) /\ PValid(d.p)
+               ELSE SValid(d.s) /\ IValid(d.i) /\ BValid(d.b) /\ LValid(d.l) /\ OValid(d.o) /\ XValid(d.x) /\ PValid(d.p) /\ MValid(d.m)
 
 L(p, v) == <<p, v>>
 SNorm(k) == CASE k = "str" -> {L(<<"s">>, "s:hello")} [] k = "numstr" -> {L(<<"s">>, "s:12")} [] OTHER -> {}
@@ -41,9 +43,10 @@ ONorm(k) == CASE k = "min"  -> {L(<<"o", "k">>, "s:v"), L(<<"o", "m">>, "i:1")} 
               [] k = "full" -> {L(<<"o", "k">>, "s:v"), L(<<"o", "m">>, "i:4")} [] OTHER -> {}
 \* what steps and outputs see of a pattern is its text (the serialized form), not a compiled expression
 PNorm(k) == CASE k = "re" -> {L(<<"p">>, "s:^ab+c$")} [] OTHER -> {}
-Norm(d) == IF d.schema = "empty" THEN {} ELSE SNorm(d.s) \cup INorm(d.i) \cup BNorm(d.b) \cup LNorm(d.l) \cup ONorm(d.o) \cup PNorm(d.p)
+MNorm(k) == CASE k = "ints" -> {L(<<"m", "80">>, "s:http"), L(<<"m", "443">>, "s:https")} [] OTHER -> {}
+Norm(d) == IF d.schema = "empty" THEN {} ELSE SNorm(d.s) \cup INorm(d.i) \cup BNorm(d.b) \cup LNorm(d.l) \cup ONorm(d.o) \cup PNorm(d.p) \cup MNorm(d.m)
 
-AllDocs == [s : SKinds, i : IKinds, b : BKinds, l : LKinds, o : OKinds, x : XKinds, p : PKinds, w : WKinds, schema : Schemas]
+AllDocs == [s : SKinds, i : IKinds, b : BKinds, l : LKinds, o : OKinds, x : XKinds, p : PKinds, m : MKinds, w : WKinds, schema : Schemas]
 ASSUME \A k \in DOMAIN Docs : Docs[k] \in AllDocs
 \* the normal form of a valid document is a function of the path (no two values for one path) and total on the
 \* fields that have a value or a default
